@@ -325,3 +325,6 @@ def run(tier, seed):
                 shards.append(("run", name, N, G, seed, 0, 0, 1, objective))
     col = run_shards(_shard, shards)
     return col, {"exhaustive": col.counters.get("caps_hit", 0) == 0, "boxes": BOXES}
+
+
+RULE += (" Position rule also on parameters that declare a precision (five boxes off the precision grid); after every run: no recorded particle's own position dominates the personal best recorded for it.")
